@@ -1,5 +1,7 @@
 (* Extraction of the IR model together with clone / uniquify / flatten (engine "xform"). *)
 From Coq Require Extraction ExtrOcamlBasic.
-From SV Require Import Base.Base IR.State IR.NS IR.Ops Xform.Clone Xform.Xform.
+From SV Require Import Base.Base IR.State IR.NS IR.Ops Xform.Clone Xform.Xform Extract.Digest.
 Extraction Language OCaml.
-Extraction "xform_model.ml" xinit xstep read_scalar.
+Extraction "xform_model.ml" xinit xstep read_scalar
+  (* cross-check of extraction + driver glue against vm_compute (harness/coq_eval.py): *)
+  ev0 xev_more xstate_digest x_case.
